@@ -4,7 +4,10 @@
 (* Diagonalize / Stack / Aggregate transforms to random integer            *)
 (* dictionaries (random programs, shapes, insertion orders, chunk sizes)   *)
 (* are judged with the operators of TransformValues.tla: the logged result *)
-(* must EQUAL the value the specification computes from the logged input.  *)
+(* must EQUAL the value the specification computes from the logged input,  *)
+(* the element type of every result value must be the one the inputs       *)
+(* determine, and in the float64 precision episodes (input v + 2^-29 K)    *)
+(* the 2^-29 part of the result must equal the specified result on K.      *)
 (* One step per episode; REJECT lines name the failing clause; SUMMARY at  *)
 (* the end (verdicts are total).                                           *)
 (***************************************************************************)
@@ -18,38 +21,53 @@ tvars == <<P, phase, call, scn, ep, nAcc, nRej>>
 
 E == Episodes[ep]
 
-JacClause ==
-    LET J   == [o \in Range(E.outs) |-> E.ct[CHOOSE i \in DOMAIN E.outs : E.outs[i] = o]]
+\* Every episode logs dt (element type of keys and input values) and rdt (element type of every value of
+\* the result).  A PRECISION episode (prec = 1, float64) was run on v + 2^-29 K: it logs the integer
+\* input v and the integer pattern K (fields ...K), and the two integer parts of every float64 value of
+\* the result (result, resultK); by linearity both parts must be the specified result on v resp. K.
+DtypeClause == IF \A i \in DOMAIN E.rdt : E.rdt[i] = OutDtype(E.kind, E.dt) THEN "none" ELSE "result_element_type"
+
+JacClauseOn(ct, result) ==
+    LET J   == [o \in Range(E.outs) |-> ct[CHOOSE i \in DOMAIN E.outs : E.outs[i] = o]]
         exp == JacT(E.prog, E.ins, J, E.m)
-        bad == {i \in DOMAIN E.ins : E.result[i] # exp[E.ins[i]]}
+        bad == {i \in DOMAIN E.ins : result[i] # exp[E.ins[i]]}
     IN  IF ~WellFormed(E.prog) THEN "malformed_program_in_log"
         ELSE IF bad = {} THEN "none"
         ELSE IF E.kind = "grad" THEN "grad_is_not_the_vector_jacobian_product"
         ELSE "jac_row_is_not_the_vector_jacobian_product_of_its_cotangent_row"
 
-DiagClause ==
-    LET g   == [k \in DOMAIN E.sizes |-> E.input[k]]
+DiagClauseOn(input, result) ==
+    LET g   == [k \in DOMAIN E.sizes |-> input[k]]
         exp == DiagT(E.order, E.sizes, g)
-    IN  IF \A k \in DOMAIN E.sizes : E.result[k] = exp[k] THEN "none" ELSE "diagonalize_value"
+    IN  IF \A k \in DOMAIN E.sizes : result[k] = exp[k] THEN "none" ELSE "diagonalize_value"
 
 MemberOf(es) == [k \in {es[i].k : i \in DOMAIN es} |-> es[CHOOSE i \in DOMAIN es : es[i].k = k].v]
-StackClause ==
-    LET mem == [i \in DOMAIN E.members |-> MemberOf(E.members[i])]
+StackClauseOn(members, result) ==
+    LET mem == [i \in DOMAIN members |-> MemberOf(members[i])]
         exp == StackT(mem, E.sizes)
-        got == [k \in {E.result[i].k : i \in DOMAIN E.result} |->
-                  E.result[CHOOSE i \in DOMAIN E.result : E.result[i].k = k].rows]
+        got == [k \in {result[i].k : i \in DOMAIN result} |->
+                  result[CHOOSE i \in DOMAIN result : result[i].k = k].rows]
     IN  IF DOMAIN got # DOMAIN exp THEN "stack_keys_are_not_the_union"
         ELSE IF \A k \in DOMAIN exp : got[k] = exp[k] THEN "none" ELSE "stack_value"
 
-AggClause ==
-    LET J   == [k \in DOMAIN E.sizes |-> E.input[k]]
+AggClauseOn(input, result) ==
+    LET J   == [k \in DOMAIN E.sizes |-> input[k]]
         exp == AggT(E.order, E.sizes, J, E.w)
-    IN  IF \A k \in DOMAIN E.sizes : E.result[k] = exp[k] THEN "none" ELSE "aggregate_slice"
+    IN  IF \A k \in DOMAIN E.sizes : result[k] = exp[k] THEN "none" ELSE "aggregate_slice"
 
-Clause == CASE E.kind \in {"jac", "grad"} -> JacClause
-            [] E.kind = "diag"  -> DiagClause
-            [] E.kind = "stack" -> StackClause
-            [] OTHER            -> AggClause
+ValueClause == CASE E.kind \in {"jac", "grad"} -> JacClauseOn(E.ct, E.result)
+                 [] E.kind = "diag"  -> DiagClauseOn(E.input, E.result)
+                 [] E.kind = "stack" -> StackClauseOn(E.members, E.result)
+                 [] OTHER            -> AggClauseOn(E.input, E.result)
+PrecClause == CASE E.kind \in {"jac", "grad"} -> JacClauseOn(E.ctK, E.resultK)
+                [] E.kind = "diag"  -> DiagClauseOn(E.inputK, E.resultK)
+                [] E.kind = "stack" -> StackClauseOn(E.membersK, E.resultK)
+                [] OTHER            -> AggClauseOn(E.inputK, E.resultK)
+
+Clause == IF ValueClause # "none" THEN ValueClause
+          ELSE IF DtypeClause # "none" THEN DtypeClause
+          ELSE IF E.prec = 1 /\ PrecClause # "none" THEN "precision_" \o PrecClause
+          ELSE "none"
 
 TInit0 == /\ P = <<>> /\ phase = "trace" /\ call = NoCall /\ scn = [kind |-> "none"]
           /\ ep = 1 /\ nAcc = 0 /\ nRej = 0
